@@ -99,6 +99,8 @@ def main():
             patch = os.path.join(sd, s, "patch.diff")
             if os.path.exists(meta) and os.path.exists(patch):
                 m = json.load(open(meta))
+                if "retired" in m:
+                    continue
                 for prop in m.get("check_properties", [m["property"]]):
                     jobs.append(("seeded", s, prop, patch))
     if a.only:
